@@ -137,6 +137,13 @@ def parse_vc(path):
         elif head == '@ghost':
             anchor, text = _split_anchor(rest)
             cur.hints.append((anchor.strip(), '__raw__', text.strip('\n'), False))
+        elif head == '@assume':
+            # @assume <label> @ <anchor>: expr   -- an INPUT-DOMAIN assumption (never a proof step): listed in the
+            # evidence under trusted_base / assumptions; the text after `//` on the same line is the stated reason
+            anchor, text = _split_anchor(rest)
+            label, _, anchor = anchor.partition('@')
+            expr, _, reason = text.partition(' // ')
+            cur.hints.append((anchor.strip(), '__raw__', 'proof { assume(%s); /* verif-domain-assumption %s: %s */ }' % (expr.strip(), label.strip(), ' '.join(reason.split())), False))
         elif head in ('@hint', '@assert'):
             anchor, text = _split_anchor(rest)
             label = None
